@@ -421,4 +421,14 @@ VF_E bool ux_eq_ui(UX const& a, UI const& b) { return a == b; }
 VF_E void ux_swap(UX& a, UX& b) { a.swap(b); }
 VF_E void ux_swap_free(UX& a, UX& b) { swap(a, b); }
 VF_E void ui_ctor(UI* out, int c) { new (out) UI(c); }
+
+// variant with a partially ordered alternative (float: NaN is unordered) — relations must use the operator itself, not its negation
+using VF = etl::variant<int, float>;
+static auto mk_vf(unsigned i, int x, float f) -> VF { return i == 0 ? VF(x) : VF(f); }
+VF_E unsigned vf_rel6(unsigned ia, int xa, float fa, unsigned ib, int xb, float fb)
+{
+    auto const a = mk_vf(ia, xa, fa);
+    auto const b = mk_vf(ib, xb, fb);
+    return (a == b ? 1U : 0U) | (a != b ? 2U : 0U) | (a < b ? 4U : 0U) | (a <= b ? 8U : 0U) | (a > b ? 16U : 0U) | (a >= b ? 32U : 0U);
+}
 }
